@@ -66,6 +66,28 @@ def alphabet(st, hist):
     return ALPHABET
 
 
+# (subq) a subquery that has to provide two columns of the same name: the hidden original of an
+# overwritten column (still used by the enclosing query) and its visible successor
+SUBQ_ROOTS = [
+    [["source", "T"], ["mutate", [["x", ["sub", lit(10), src("T", "x")]]]], ["arrange", [src("T", "k")]], ["slice_head", 2, 0], ["alias", "A", True]],
+    [["source", "T"], ["arrange", [["nulls_last", src("T", "x")], src("T", "k")]], ["mutate", [["x", ["neg", src("T", "x")]]]], ["slice_head", 2, 0], ["alias"]],
+    [["source", "T"], ["mutate", [["k", ["add", src("T", "k"), lit(1)]], ["x", lit(0)]]], ["arrange", [src("T", "k")]], ["slice_head", 3, 0], ["alias", "B", True]],
+]
+SUBQ = [
+    ["filter", [["gt", src("T", "x"), lit(1)]]],  # (disabled by the model after a plain alias())
+    ["filter", [["gt", Cn("k"), lit(0)]]],
+    ["mutate", [["q", src("T", "x")]]],
+    ["mutate", [["q", ["add", Cn("x"), lit(1)]]]],
+    ["select", [Cn("x"), Cn("k")]],
+    ["summarize", [["n", ["count_star"]], ["m", ["max", Cn("x")]]]],
+    ["arrange", [Cn("x")]],
+]
+
+
+def subq_explorer(world, root_len):
+    return X.Explorer(world, alphabet=lambda st, hist: SUBQ, checks=[check_meta], depth=root_len + 1, oracle="none", names="list")
+
+
 def header_names(text):
     """column names in the header row of a printed polars table"""
     lines = text.split("\n")
@@ -138,15 +160,20 @@ def make_explorer(world, depth=3):
 
 
 def tasks(tier):
-    return [{"first": [i]} for i in range(len(ALPHABET))]
+    return [{"first": [i]} for i in range(len(ALPHABET))] + [{"subq": i} for i in range(len(SUBQ_ROOTS))]
 
 
 def run_task(task, tier):
+    if "subq" in task:
+        root = SUBQ_ROOTS[task["subq"]]
+        return base.run_history_task(lambda ww: subq_explorer(ww, len(root)), WORLD, root, None, params={"subq": len(root)})
     d = DEPTH[tier]
     return base.run_history_task(lambda ww: make_explorer(ww, d), WORLD, [["source", "T"]], task["first"], params={"depth": d})
 
 
 def recheck(rec):
+    if (rec.get("params") or {}).get("subq"):
+        return base.recheck_history(lambda ww: subq_explorer(ww, rec["params"]["subq"]), rec)
     d = (rec.get("params") or {}).get("depth", 3)
     return base.recheck_history(lambda ww: make_explorer(ww, d), rec)
 
@@ -155,6 +182,7 @@ def describe(tier):
     return {
         "alphabet": [T.py_event(e) for e in ALPHABET],
         "alphabet_size": len(ALPHABET),
+        "subquery_twins": {"roots": [T.py_history(r) for r in SUBQ_ROOTS], "then": [T.py_event(e) for e in SUBQ], "extra_depth": 2},
         "depth": DEPTH[tier],
         "input_family": "one world T(k,g,x,s), R(k,x,w) (forces suffixes), U (columns of T permuted)",
         "backends": ["polars", "sqlite"],
